@@ -29,6 +29,7 @@ type c16Case struct {
 	Offsets     []int64 `json:"offsets_ns"` // non-decreasing clock readings relative to the epoch
 	Mono        bool    `json:"monotonic"`  // epoch and readings from time.Now() inside a synctest bubble (as main.go does)
 	Wildcard    bool    `json:"wildcard"`
+	TickNS      int64   `json:"tick_ns"` // >0: the injected clock advances by this much on every reading (as a real clock does)
 }
 
 const c16MonoMax = int64(100 * 365 * 24 * time.Hour)
@@ -129,6 +130,9 @@ func c16Prop(k *verifkit.Kit) func(c c16Case) error {
 		if c.Wildcard {
 			cls = append(cls, "wildcard")
 		}
+		if c.TickNS > 0 {
+			cls = append(cls, "ticking-clock")
+		}
 		if len(c.Offsets) > 0 && c.Offsets[0] < 0 {
 			cls = append(cls, "reading-before-epoch")
 		}
@@ -166,6 +170,9 @@ func c16Prop(k *verifkit.Kit) func(c c16Case) error {
 		}
 		epoch := time.Unix(0, c.EpochUnixNS)
 		var cur time.Time
+		if c.TickNS > 0 {
+			return c16Ticking(c, epoch)
+		}
 		apply := c16Build(c, epoch, func() time.Time { return cur })
 		var prev *c16Reading
 		for i, o := range c.Offsets {
@@ -181,6 +188,63 @@ func c16Prop(k *verifkit.Kit) func(c c16Case) error {
 		}
 		return nil
 	}
+}
+
+// c16Ticking runs the sequence with a clock that advances on every reading. A
+// real clock never returns the same instant twice, so "the lifetimes advertised
+// at time t" must all come from one reading t: the oracle looks for a single
+// recorded reading that explains both lifetimes of the prefix option.
+func c16Ticking(c c16Case, epoch time.Time) error {
+	V, P, R := time.Duration(c.ValidNS), time.Duration(c.PrefNS), time.Duration(c.RouteNS)
+	var cur time.Time
+	var reads []time.Time
+	clock := func() time.Time {
+		t := cur
+		reads = append(reads, t)
+		cur = cur.Add(time.Duration(c.TickNS))
+		return t
+	}
+	apply := c16Build(c, epoch, clock)
+	var prev *c16Reading
+	for i, o := range c.Offsets {
+		if at := epoch.Add(time.Duration(o)); at.After(cur) {
+			cur = at
+		}
+		reads = reads[:0]
+		g, err := apply()
+		if err != nil {
+			return err
+		}
+		if g.pref > g.valid {
+			return verifkit.Violf("C16/preferred-exceeds-valid", "reading %d with a ticking clock (%v per read): preferred %v > valid %v", i, time.Duration(c.TickNS), g.pref, g.valid)
+		}
+		if g.valid < 0 || g.pref < 0 || g.route < 0 {
+			return verifkit.Violf("C16/negative-lifetime", "reading %d: negative lifetime %v/%v/%v", i, g.valid, g.pref, g.route)
+		}
+		okPrefix, okRoute := false, false
+		for _, r := range reads {
+			if g.valid == verifref.Remaining(epoch, V, r) && g.pref == verifref.Remaining(epoch, P, r) {
+				okPrefix = true
+			}
+			if g.route == verifref.Remaining(epoch, R, r) {
+				okRoute = true
+			}
+		}
+		if !okPrefix {
+			return verifkit.Violf("C16/lifetimes-from-different-instants", "reading %d with a ticking clock: valid %v / preferred %v match no single clock reading %v (deadlines epoch+%v / epoch+%v)", i, g.valid, g.pref, reads, V, P)
+		}
+		if !okRoute {
+			return verifkit.Violf("C16/wrong-remaining-time", "reading %d with a ticking clock: route lifetime %v matches no clock reading %v", i, g.route, reads)
+		}
+		if prev != nil && (g.valid > prev.valid || g.pref > prev.pref || g.route > prev.route) {
+			return verifkit.Violf("C16/lifetime-increased", "reading %d with a ticking clock: %v/%v/%v after %v/%v/%v", i, g.valid, g.pref, g.route, prev.valid, prev.pref, prev.route)
+		}
+		if g.cValid != V || g.cPref != P || g.cRoute != R {
+			return verifkit.Violf("C16/non-deprecated-not-constant", "reading %d: non-deprecated stanzas advertise %v/%v/%v", i, g.cValid, g.cPref, g.cRoute)
+		}
+		prev = &g
+	}
+	return nil
 }
 
 func c16GenLife(t *rapid.T, name string, max int64) int64 {
@@ -202,6 +266,9 @@ func c16Gen(t *rapid.T) c16Case {
 		Mono:        rapid.IntRange(0, 4).Draw(t, "mono") == 0,
 		Wildcard:    rapid.Bool().Draw(t, "wildcard"),
 	}
+	if !c.Mono && rapid.IntRange(0, 2).Draw(t, "ticking") == 0 {
+		c.TickNS = rapid.SampledFrom([]int64{1, 1000, int64(time.Millisecond), int64(time.Second)}).Draw(t, "tick")
+	}
 	maxLife := int64(ndp.Infinity) - 1
 	if c.Mono {
 		// the bubble's clock starts in 2000 and an int64 nanosecond timer
@@ -210,6 +277,9 @@ func c16Gen(t *rapid.T) c16Case {
 	}
 	c.ValidNS = c16GenLife(t, "valid", maxLife)
 	c.PrefNS = c16GenLife(t, "pref", c.ValidNS)
+	if rapid.IntRange(0, 3).Draw(t, "pref=valid") == 0 {
+		c.PrefNS = c.ValidNS
+	}
 	c.RouteNS = c16GenLife(t, "route", maxLife)
 	n := rapid.IntRange(2, 30).Draw(t, "n")
 	deadlines := []int64{c.ValidNS, c.PrefNS, c.RouteNS, 0}
